@@ -593,6 +593,7 @@ func c16Expiry(c *Ctx) {
 			return
 		}
 		n++
+		condStore := false
 		// alternatives (value, facts) feeding the stored expiry
 		type alt struct {
 			v     ssa.Value
@@ -612,6 +613,11 @@ func c16Expiry(c *Ctx) {
 					}
 				}
 			}
+		}
+		if len(alts) == 0 {
+			// conditional-store form: `t := &Token{…}; if claim present && enabled { t.Expiry = claim time }`
+			alts = append(alts, alt{st.Val, fs.At(st.Block())})
+			condStore = true
 		}
 		hasExp := func(facts []Fact, want bool) bool {
 			return anyFact(facts, func(f Fact) bool {
@@ -637,6 +643,30 @@ func c16Expiry(c *Ctx) {
 			nSet++
 			fromClaim := strings.Contains(path(a.v), "ExpiresAt") && strings.HasSuffix(path(a.v), ".&Time")
 			if !(fromClaim && hasExp(a.facts, true) && disabled(a.facts, false)) {
+				good = false
+			}
+		}
+		if condStore && good {
+			// the paths that skip the store leave the expiry unset: allowed only when the claim is absent or the feature disabled
+			base, _ := addrOfField(st.Addr, expF)
+			if al, ok := strip(base).(*ssa.Alloc); ok {
+				paths, complete := enumPaths(al, func(i ssa.Instruction) bool { return i == ssa.Instruction(st) }, nil, nil, 400)
+				if !complete {
+					good = false
+				}
+				for _, pa := range paths {
+					if pa.endWhy != "return" || len(pa.seen) > 0 || infeasible(pa.facts) {
+						continue
+					}
+					rv := returnValues(pa.end.(*ssa.Return))
+					if len(rv) > 0 && isNilConst(rv[0]) {
+						continue // a refusal: no token is handed out
+					}
+					if !(hasExp(pa.facts, false) || disabled(pa.facts, true)) {
+						good = false
+					}
+				}
+			} else {
 				good = false
 			}
 		}
